@@ -96,7 +96,7 @@ prop("C06", module="MW.Props.C06", title="batch lifecycle and timing",
 
 prop("C19", module="MW.Props.C19", title="token-factory messages in both builds",
      builds=["osmosis", "miniwasm"], extra=["crossbuild"],
-     variants=["instantiate", "liquid_stake", "submit_batch"], state_keys=["config"],
+     variants=["instantiate", "liquid_stake", "submit_batch", "liquid_unstake"], state_keys=["config", "batches", "state", "pending"],
      weights={"stake": 30, "unstake": 14, "submit": 14, "advance": 12},
      quick_histories=60,
      assumptions=["the target chains' token-factory definitions are the hand-pinned ones cited in MW/Props/C19.lean (no .proto sources offline)"],
@@ -118,7 +118,7 @@ prop("C14", module="MW.Props.C14", title="well-formed configuration, sectional u
 
 prop("C17", module="MW.Props.C17", title="complete pagination, consistent per-user index",
      variants=[], state_keys=["batches", "requests", "ibc_queue", "reply_queue", "pending"],
-     weights={"unstake": 22, "withdraw": 16, "submit": 12, "deliver": 10, "stake": 14, "ack": 8, "timeout": 4, "longrun": 1.2},
+     weights={"unstake": 22, "withdraw": 16, "submit": 12, "deliver": 10, "stake": 14, "ack": 8, "timeout": 4, "longrun": 1.2, "update_config": 5},
      profile={"queries": 0.5, "legacy": 0.02},
      assumptions=["the model answers UnstakeRequests by filtering one request list (the specification); the upkeep of the real secondary index is covered differentially"])
 
@@ -171,7 +171,9 @@ prop("C18", module="MW.Props.C18", title="version-gated, preserving migrations",
                   "legacy stores are written in the serde-json-wasm encoding of the legacy layouts (u128 as string)"])
 
 prop("C16", module="MW.Props.C16", title="entry points never panic", extra=["treasury", "migration"],
-     state_keys=[], weights={"stake": 16, "unstake": 10, "submit": 8, "deliver": 7, "rewards": 8, "withdraw": 8, "ack": 8,
+     state_keys=[], pure_only_panics=True, pure=["validate_address", "validate_addresses", "validate_address_prefix", "validate_denom", "validate_ibc_denom",
+                          "channel_ok", "derive_intermediate_sender", "treasury_validate_address", "compute_mint_amount",
+                          "compute_unbond_amount"], weights={"stake": 16, "unstake": 10, "submit": 8, "deliver": 7, "rewards": 8, "withdraw": 8, "ack": 8,
                              "timeout": 3, "recover": 6, "update_config": 6, "resume": 4, "garbage": 4, "unauthorized": 6},
      profile={"queries": 0.2, "legacy": 0.02},
      assumptions=["envelope of the property: amounts ≤ 10^27, totals ≤ 10^30, rates within [10^-3, 10^3] before and after the call, block time < 2^63 ns, sender a valid address under the configured prefix, counters below 2^64",
